@@ -246,6 +246,9 @@ def gen_cases(tier, seed):
         yield dict(kind="refit", fam="c", prog=name)
     for i in range(len(REPARAM)):
         yield dict(kind="reparam", which=i)
+    from . import c04
+    for name in c04.RUNNABLE:
+        yield dict(kind="refit", fam="all", prog=name)
     for site in SITES:
         # one case per deviating Parallel call (quick: the first 6 multi-task calls of the site)
         for cno in range(6 if tier == "quick" else 48):
@@ -493,8 +496,47 @@ def _apply_c(case, res):
                 other_fit=lambda: _build_c(name).fit(mk(Po), yv[::-1].copy()))
 
 
+def _refit_parts_all(name):
+    """every runnable registered estimator class with the repository's fixture parameters"""
+    from . import c04
+
+    cls, base = c04._registry()[name]
+    kind = c04._kind(cls)
+
+    def fit_on(e, which):
+        import joblib
+
+        with joblib.parallel_backend("threading"):
+            if kind in ("forecaster", "series"):
+                t = np.arange(20.0 if which == 1 else 26.0)
+                y = pd.Series((20 + 1.5 * t + np.array([3.0, -1, 0.5, 1.5])[t.astype(int) % 4]) *
+                              (1.0 if which == 1 else 1.6))
+                return e.fit(y, fh=[1, 2]) if kind == "forecaster" else e.fit(y)
+            n = 12 if which == 1 else 10
+            r = np.arange(n * 24).reshape(n, 1, 24).astype(float)
+            P = np.sin(r / (3.0 if which == 1 else 2.2)) + (np.arange(n) % 2)[:, None, None] * 1.5
+            yy = np.arange(float(n)) if kind == "regressor" else (
+                np.array([0, 1, 2] * 4) if which == 1 else np.array([1, 0] * 5))
+            return e.fit(_nested(P + 0.01 * r), yy)
+
+    def app(e):
+        out = []
+        for m, thunk in c04._apply_calls(e, kind):
+            if m in ("update", "update_predict", "update_predict_single"):
+                continue
+            o = call(thunk)
+            out.append((m, o.kind) if not o.ok else o.value)
+        if hasattr(e, "classes_"):
+            out.append(list(e.classes_))
+        return tuple(out)
+
+    return (lambda: cls(**base), lambda e: fit_on(e, 1), lambda e: fit_on(e, 2), app)
+
+
 def _refit_parts(fam, prog):
     """-> (build(), fit1(est), fit2(est), apply(est) -> tuple of outputs)"""
+    if fam == "all":
+        return _refit_parts_all(prog)
     if fam == "s":
         base = prog[0].replace("-df", "")
         df = prog[0].endswith("-df")
